@@ -4,6 +4,7 @@ import Wayfind.Model.Router
 import Wayfind.Spec.FitsExec
 import Wayfind.Spec.Greedy
 import Wayfind.Spec.RefWalk
+import Wayfind.Spec.Drawing
 import Wayfind.Driver.Codec
 
 /-! Replay of an operation file on the model, and the judge: correspondence with the implementation's output
@@ -136,11 +137,23 @@ def templateErrOracle (s : JS) (idx : Nat) (t : Bytes) (implCore : String) : JS 
     s.emit s!"O {idx} C11 a template the grammar rejects was not answered with a template error: {implCore}"
   else s
 
+def renderParts (parts : List Part) : String :=
+  String.join (parts.map (fun p => match p with
+    | .stat b => bytesToString b
+    | .par k l => "{" ++ (if wildK k then "*" else "") ++ bytesToString l.name ++
+        (if consK k then ":" ++ bytesToString l.cons else "") ++ "}"))
+
+/-- C15 is checked on drawings whose labels cannot be confused with the drawing's own syntax -/
+def drawable (parts : List Part) : Bool :=
+  parts.all (fun p => match p with
+    | .stat b => b.all (fun c => c > 32 && c < 127 && c != 123 && c != 125 && c != 91 && c != 93)
+    | .par _ l => (l.name ++ l.cons).all (fun c => c > 32 && c < 127))
+
 def classOf (op : Op) : String :=
   match op with
   | .reset => "reset" | .new .. => "new" | .constraint .. => "constraint" | .insert .. => "insert"
   | .delete .. => "delete" | .search .. => "search" | .display _ => "display" | .clone .. => "clone"
-  | .drop _ => "drop" | .parse _ => "parse" | .bad _ => "bad"
+  | .drop _ => "drop" | .parse _ => "parse" | .note => "note" | .bad _ => "bad"
 
 /-- model step: returns the model's output line and the new model routers -/
 def modelStep (routers : List (Nat × Router)) (op : Op) : List (Nat × Router) × String :=
@@ -178,6 +191,7 @@ def modelStep (routers : List (Nat × Router)) (op : Op) : List (Nat × Router) 
     | some x => (set r2 x.clone, "ok")
   | .drop r => (routers.filter (·.1 != r), "ok")
   | .parse t => (routers, showParsed (parseTemplates t))
+  | .note => (routers, "ok")
   | .bad l => (routers, "bad-op " ++ l)
 
 partial def replayLoop (h : IO.FS.Stream) (out : IO.FS.Stream) (routers : List (Nat × Router)) : IO Unit := do
@@ -267,11 +281,24 @@ def judgeStep (s : JS) (models : List (Nat × Router)) (idx : Nat) (op : Op) (im
           if !faultPresent t e then s.emit s!"O {idx} C14 reported fault is not present in the template: {implCore}" else s
         | none => s.emit s!"O {idx} C14 unparsable template error {implCore}"
       else s
+    | .note => s
     | .bad _ => s.emit s!"O {idx} BAD unparsable operation line"
     | .display r =>
       match s.get r with
       | none => s
       | some j =>
+        let routes := liveRoutes j.live
+        let s := if implCore.startsWith "tree " && routes.all (fun rt => drawable rt.parts) then
+            match unhex ((implCore.drop 5).toString) with
+            | some bytes =>
+              let errs := checkDrawing (bytesToString bytes) (routes.map (fun rt => renderParts rt.parts))
+              let s := s.bump "c15.checked"
+              let s := if routes.length ≥ 3 then { s with nontrivial := s.nontrivial.insert ("tree#" ++ liveKey j.live) } else s
+              match errs with
+              | [] => s
+              | e :: _ => s.emit s!"O {idx} C15 {e}"
+            | none => s
+          else s.bump "c15.skipped"
         let key := liveKey j.live ++ "#tree"
         match s.obs.get? key with
         | some (prevLine, pidx) =>
